@@ -458,6 +458,7 @@ func (modComp) Gen(r *rand.Rand, tier string, n int) []*wire.Case {
 		var ops []*wire.Rec
 		l := 6 + r.Intn(30)
 		adds := 0
+		cursor := map[int]int{}
 		for j := 0; j < l; j++ {
 			t := pick(r, 1, 1, 2, 3)
 			name := r.Intn(len(modCatalog))
@@ -471,7 +472,7 @@ func (modComp) Gen(r *rand.Rand, tier string, n int) []*wire.Case {
 					st = pick(r, atk, red, atk+"|"+red)
 				}
 				op := add(t, name, pick(r, 1, 2, 3), pick(r, 0, 0, 1, 2, 3), pick(r, 0, 0, 1, 2), st)
-				if r.Intn(8) == 0 {
+				if r.Intn(4) == 0 {
 					st = ""
 					op = wire.R("addmod").I("t", t).I("name", name).I("src", pick(r, 1, 2)).I("dur", pick(r, 0, 1, 2)).I("count", pick(r, 0, 1)).I("max", pick(r, 0, 2, 6)).I("cadd", pick(r, 0, 2)).B("imm", r.Intn(2) == 0).S("stats", "-")
 				}
@@ -494,8 +495,16 @@ func (modComp) Gen(r *rand.Rand, tier string, n int) []*wire.Case {
 				ops = append(ops, wire.R("extcnt").I("t", t).I("name", name).I("n", pick(r, 1, 2, -1, -2)))
 			case 11:
 				ops = append(ops, wire.R("dispel").I("t", t).I("status", pick(r, 1, 2, 0)).I("order", pick(r, 1, 2)).I("count", pick(r, 0, 1, 2)))
-			case 12, 13:
+			case 12:
+				for cursor[t] != 0 {
+					ops = append(ops, tick(t, cursor[t]))
+					cursor[t] = (cursor[t] + 1) % 4
+				}
 				ops = append(ops, turn(t)...)
+			case 13:
+				// one phase of the target's turn at a time, so that other operations land inside a turn
+				ops = append(ops, tick(t, cursor[t]))
+				cursor[t] = (cursor[t] + 1) % 4
 			case 14:
 				if adds > 0 {
 					ops = append(ops, wire.R("instprop").I("t", t).I("uid", 1+r.Intn(adds+1)).I("p", pick(r, int(prop.ATKPercent), int(prop.AllDamageReduce), int(prop.CritChance))).F("x", pick(r, 0.1, 0.3)))
